@@ -76,8 +76,8 @@ def k_dec_specs():
                        'all byte strings of the exact format length (arbitrary prefix and coordinates)', [MODEL, 'Fq::sqrt / Fq2::sqrt replaced by "None, or Some(arbitrary canonical value)"; AffineG::new replaced by "Err, or Ok carrying exactly the given coordinates (y != 0)" - their own behaviour is decided by engine A']))
             S.append(K('dec::k_declen_%s_%s' % (g, k), '%s %s decoder returns Err (no panic) for every other length 0..=140' % (g.upper(), k), ['decoder length checks'],
                        'all strings of every length 0..=140 except the format length (each length, arbitrary content)', [MODEL]))
-    S.append(K('dec::k_enc_g1', 'G1 encoders: raw = x||y big-endian; 0x04 prefix; compressed prefix 0x02/0x03 = parity of canonical y', ['G1::to_slice/to_uncompressed/to_compressed'], 'all canonical coordinate pairs (z = 1)', [MODEL]))
-    S.append(K('dec::k_enc_g2', 'G2 encoders: imaginary before real, x before y; compressed prefix = parity of the real part of y', ['G2::to_slice/to_uncompressed/to_compressed', 'Fq2::to_slice'], 'all canonical coordinates (z = 1)', [MODEL]))
+    S.append(K('dec::k_enc_g1', 'G1 encoders: raw = x||y big-endian; 0x04 prefix; compressed prefix 0x02/0x03 = parity of canonical y', ['G1::to_slice/to_uncompressed/to_compressed'], 'all canonical coordinate pairs (z = 1)', ['layout-only model: decode is the identity on canonical values']))
+    S.append(K('dec::k_enc_g2', 'G2 encoders: imaginary before real, x before y; compressed prefix = parity of the real part of y', ['G2::to_slice/to_uncompressed/to_compressed', 'Fq2::to_slice'], 'all canonical coordinates (z = 1)', ['layout-only model: decode is the identity on canonical values']))
     return S
 
 
@@ -97,6 +97,27 @@ def A(pid, parts, tier):
 
 def run_c03(tier):
     return A('C03', ['wrappers', 'normalize', 'gabs_toaffine'], tier)
+
+
+def run_c05(tier):
+    import lengine, algreplay
+    obls = lengine.skeleton('C05', tier)
+    obls += lengine.decide('C05', ['L-dec-r'], tier)
+    bad = [o for o in obls if o.name.startswith('L-smul') and not o.name.endswith('canary') and o.status != 'proved']
+    if bad:
+        # the skeleton could not be established (refuted, or the IR no longer has the supported shape): search a
+        # natively reproducible witness among the solver's scalars and a catalogue of structured scalars
+        ks = []
+        for o in bad:
+            ks += getattr(o, 'skel', {}).get('scalars', []) or []
+        rep, wit = algreplay.replay_smul(ks)
+        if rep:
+            o = bad[0]
+            o.status = 'violated'
+            o.witness = write_replay('C05', o.name, dict(property='C05', engine='L', obligation=o.name, native_replay=wit, how_to_replay='./check C05 --replay <this file>'))
+            o.detail = 'reproduced natively: %s (scalar %s) | %s' % (wit.get('mismatch'), wit.get('scalar'), o.detail[:200])
+    obls += A('C05', ['gabs_law', 'consts'], tier)
+    return obls
 
 
 def run_c14(tier):
@@ -169,6 +190,10 @@ def run_c18(tier):
 
 
 PROPS = {
+    'C05': dict(run=run_c05, level='proof', trusted_base=ATRUST + ['z3 LIA; release IR = the code that runs; abstraction of double/add by 2c / c1+c2 is justified by C04 (every branch returns the group sum)'],
+                not_covered=['r*P = O, (r-1)P = -P and "order exactly r" for arbitrary points are consequences given r*G = O (checked for the two generators with the affine reference) and C06 (Fr is Z/r)',
+                             'if LLVM stops emitting the loop with out-of-line double/add the skeleton is reported inconclusive'],
+                explanation='P*k = k-fold sum of P decomposes into: canonical scalar (L-dec-r), loop skeleton on the release IR with callees abstracted (cut points, Houdini invariant, all 256-bit k), and the group law of the callees on every representative (C04 obligations re-run)'),
     'C14': dict(run=run_c14, level='proof', trusted_base=ATRUST + ['-2 and 2 are quadratic non-residues mod q, -1 is a residue (recomputed numerically)', 'contract of Fq::sqrt: Some(s) with s^2 = x exactly for squares, either root'],
                 not_covered=['Fq::sqrt itself (exponentiation chains over the real limb code: one symbolic Montgomery product is out of reach of CBMC, and its log-domain model (overlay variant U) was not built); only its contract is assumed',
                              'leaves of the general task outside the three stratified families'],
